@@ -15,6 +15,15 @@ def c19Engine (args : List String) : String :=
     | some i =>
       let has : Role → Bool := fun r => r.name == role
       if guardOk (info i).attr has then "passed" else "denied same"
+  | ["gcall", prog, ix, role] =>
+    match IxId.all.find? (fun i => i.name == prog ++ "::" ++ ix) with
+    | none => "noix"
+    | some i =>
+      let has : Role → Bool := fun r => r.name == role
+      if guardOk (info i).attr has then "passed"
+      -- Anchor `init` creates the account during account validation, before the guard: natively
+      -- that creation is visible (on chain the failed transaction rolls it back)
+      else if (info i).inits > 0 then "denied init-only" else "denied same"
   | ["count"] => s!"ok {IxId.all.length}"
   | _ => "bad-op"
 
